@@ -158,7 +158,7 @@ def ghost_case(rng):
         return {"case": case, "status": "inconclusive", "why": "the submitting interpreter did not end within 60 s"}
     if not pids:
         return {"case": case, "status": "inconclusive", "why": "no worker pids reported (rc=%s) %s" % (rc, err[-300:])}
-    deadline = time.time() + 25
+    deadline = time.time() + 40
     alive = pids
     while time.time() < deadline:
         alive = [p for p in pids if os.path.exists("/proc/%d" % p) and "interactive_" in open("/proc/%d/cmdline" % p).read()]
@@ -171,7 +171,7 @@ def ghost_case(rng):
         except OSError:
             pass
     return {"case": case, "status": "fail",
-            "why": "the submitting interpreter has ended (exit %s) but worker processes %r are still running 25 s later" % (rc, alive)}
+            "why": "the submitting interpreter has ended (exit %s) but worker processes %r are still running 40 s later" % (rc, alive)}
 
 
 BYVALUE = r'''
